@@ -238,7 +238,7 @@ def run(tier, seed):
     res_big = BoundedResult(
         "C02.solver-vs-bfs.random-larger",
         rule=f"seeded random connection structures (edge probability in {{0.35,0.5,0.65,0.8,0.92,1.0}}: disconnected, cyclic, near-full lattices) on grids {big_sizes[0]}..{big_sizes[-1]} "
-        f"incl. non-square, {'60' if thorough else '7'} graphs per size, {'300' if thorough else '45'} seeded random ordered pairs each (60% drawn inside the start's component); non-trivial = start != end",
+        f"incl. non-square, {'60' if thorough else '12'} graphs per size, {'300' if thorough else '80'} seeded random ordered pairs each (60% drawn inside the start's component); non-trivial = start != end",
         exhaustive=False,
         functions=["LatticeMaze.find_shortest_path (optimality clause)"],
     )
@@ -253,7 +253,7 @@ def run(tier, seed):
         chunk = 16 if thorough else 8
         jobs33 = [idxs[k : k + chunk] for k in range(0, len(idxs), chunk)]
         ps = [0.35, 0.5, 0.65, 0.8, 0.92, 1.0]
-        reps, n_pairs = (60, 300) if thorough else (7, 45)
+        reps, n_pairs = (60, 300) if thorough else (12, 80)
         jobs_big = []
         for R, C in big_sizes:
             for r in range(reps):
